@@ -106,6 +106,11 @@ class CmpProp(Prop):
         'id-hash': {'hash': ('$', ID)},
         'id-eq': {'eq': ('( ( $ ) )', ID), 'partial_eq': ('( $ )', ID)},
         'id-ord': {'ord': ('$', ID), 'partial_ord': ('( $ )', ID)},
+        # keys that do not mention the field at all, and keys whose only `$` sits inside a macro invocation
+        'const-keys': {'hash': ('( 7u8 )', lambda x: 7), 'eq': ('( 1u8 )', lambda x: 1), 'ord': ('( 2u8 )', lambda x: 2)},
+        'macro-keys': {'hash': ('( :: core :: matches ! ( $ , 1 | 3 ) as u8 )', lambda x: int(x in (1, 3))),
+                       'eq': ('( :: core :: matches ! ( $ , 0 | 2 ) as u8 )', lambda x: int(x in (0, 2))),
+                       'partial_ord': ('( :: core :: matches ! ( $ , 2 | 3 ) as u8 )', lambda x: int(x in (2, 3)))},
     }
 
     def cases(self, tier, rng):
